@@ -766,7 +766,7 @@ class ModelSpecs(Structured[ModelSpec]):
                 materializer = FormulaMaterializer.for_materializer(materializer)
             return materializer(  # type: ignore
                 data, context=context, **(materializer_params or {})
-            ).get_model_matrix(self)
+            ).get_model_matrix(self, drop_rows=drop_rows)
 
         return cast(
             ModelMatrices,
